@@ -429,6 +429,8 @@ def par3_cases(rng, tier):
         cls = rng.choice(['euler2', 'euler3', 'axis', 'axis'])
         tr = rng.choice([[0, 0, 0], [1, -2, 0.5], [0.25, 0, -3]])
         axes = _axes3(rng)
+        if rng.random() < 0.05:
+            axes = [(0, 3, 4), (0, -6, -8)]       # linearly dependent: ValueError
         mode = rng.choice(['ctor', 'ctor', 'matrix'] + (['slice'] if cls == 'axis' else []))
         i, j = _slice(rng, mode)
         npt = 2 if tier == 'quick' else 4
@@ -576,6 +578,8 @@ def cone_cases(rng, tier, slice_raises):
         s2d = None if rng.random() < 0.5 else _rnd_vec(rng, PYTH3 + [(0, 1, 0)], GEN3)
         if s2d is not None and np.linalg.norm(np.cross(s2d, axis)) == 0 and any(axis):
             s2d = None                    # tangent would be 0/0
+        if rng.random() < 0.04:
+            s2d = [0, 0, 0]               # ValueError
         kind = rng.choice(['flat', 'flat', 'cyl', 'sph'])
         axes = _axes3(rng) if kind == 'flat' else (_perp_axes3(rng) if rng.random() < 0.7 else None)
         if kind != 'flat' and axes is None and tuple(axis) in GEN3:
@@ -584,10 +588,12 @@ def cone_cases(rng, tier, slice_raises):
             if s2d is not None and np.linalg.norm(np.cross(s2d, axis)) == 0:
                 s2d = None
         tr = rng.choice([[0, 0, 0], [1, -2, 0.5], [0.25, 0, -3]])
-        rs, rd = rng.choice([(2, 1), (5, 5), (3, 0), (0, 4), (1.5, 2.25), (-1, 2), (7, 3)])
+        rs, rd = rng.choice([(2, 1), (5, 5), (3, 0), (0, 4), (1.5, 2.25), (-1, 2), (7, 3), (2, -1), (0, 0), (4, 2)])
+        if kind == 'flat' and rng.random() < 0.05:
+            axes = [(1, 2, 2), (2, 4, 4)]         # linearly dependent: ValueError
         pitch = rng.choice([0, 0, 2.0, -0.5, 3.0])
         off = rng.choice([0, 0, 1.0, -0.25])
-        rad = rng.choice([1.0, 2.5, 4.0])
+        rad = rng.choice([1.0, 2.5, 4.0, 1.0, 2.5, 4.0, 0.0, -1.5])
         curv = {'flat': None, 'cyl': (rad, None), 'sph': (rad, rad)}[kind]
         if kind == 'cyl' and rng.random() < 0.3:
             curv = (rad, float('inf'))
@@ -645,6 +651,11 @@ def cone_cases(rng, tier, slice_raises):
             else:
                 model = 'obs_cone (bindg (%s) (q_cone_getitem)) %s %s' % (mk, C.q(twopi), ptt)
                 it = impl(lambda: obs_cone(build()[i:j], pts))
+                if typeerr:
+                    try:
+                        build()
+                    except ValueError:
+                        typeerr = False     # rejected by the constructor before any slicing happens
         add_case(cs, model, it, desc, key, typeerr)
     return cs
 
